@@ -4317,13 +4317,14 @@ impl<'a> Tyck<'a> for TyEnvT<su::TermId> {
                 }
             }
             | Tm::Var(def) => {
-                let annotation =
-                    tycker.statics.annotations_var.get(&def).copied().unwrap_or_else(|| {
-                        panic!(
-                            "resolved variable `{}` reached the checker before its binder",
-                            tycker.def_name(&def).plain()
-                        )
-                    });
+                // A binder whose own annotation mentions it (`fix x : x => ...`) is
+                // looked up before its classifier exists; that is a missing
+                // annotation of the source program, not an internal failure.
+                let annotation = match tycker.statics.annotations_var.get(&def).copied() {
+                    | Some(annotation) => annotation,
+                    | None => tycker
+                        .err_k(TyckError::MissingAnnotation, std::panic::Location::caller())?,
+                };
                 let ann = {
                     match switch {
                         | Switch::Syn => annotation,
